@@ -612,11 +612,26 @@ func (f *realConnFactory) NewSession(conn ws.Connection) *client.WSSession {
 // sends return, until a successful Reconnect.
 func c17RealConnection(c *core.Ctx) {
 	faults := []fakes.PeerItem{{Kind: "neterr"}, {Kind: "close", Code: 1011}, {Kind: "close", Code: 1008}, {Kind: "close", Code: 1001}}
-	for _, fault := range faults {
-		for _, raw := range []bool{false, true} {
+	for fi, fault := range faults {
+		for ri, raw := range []bool{false, true} {
 			f := &realConnFactory{}
-			cl := client.NewWS(client.WSConnectionOptions{Factory: f, ConnectionOptions: ws.ConnectionOptions{CloseDeadline: wsCloseDeadline}})
-			replay := map[string]interface{}{"scenario": "Connect; send; the peer breaks the connection (reader ends with an error on the library's own ws.Connection); send; send; Reconnect; send", "fault": fault.Kind, "code": fault.Code, "raw": raw}
+			// the application's own ReadHandler (a rarely used option): none (the default closes and returns the
+			// error), one that passes the error on without closing, one that closes and passes it on
+			copts := ws.ConnectionOptions{CloseDeadline: wsCloseDeadline}
+			handler := []string{"default", "passes the error on", "closes and passes the error on"}[(fi+ri)%3]
+			switch handler {
+			case "passes the error on":
+				copts.ReadHandler = func(_ ws.Connection, _ int, _ []byte, err error) error { return err }
+			case "closes and passes the error on":
+				copts.ReadHandler = func(cn ws.Connection, _ int, _ []byte, err error) error {
+					if err != nil {
+						_ = cn.Close()
+					}
+					return err
+				}
+			}
+			cl := client.NewWS(client.WSConnectionOptions{Factory: f, ConnectionOptions: copts})
+			replay := map[string]interface{}{"scenario": "Connect; send; the peer breaks the connection (reader ends with an error on the library's own ws.Connection); send; send; Reconnect; send", "fault": fault.Kind, "code": fault.Code, "raw": raw, "read_handler": handler}
 			send := func() error {
 				if raw {
 					return cl.SendRaw([]byte{0x93, 0xa1, 't', 0x01, 0x80})
